@@ -183,7 +183,7 @@ def handle (toks : List String) : String :=
     | none => "BAD"
   | ["TYPED", o] =>
     match run pFVal o with
-    | some fv => match generateFuel env.tc env.dict env.classes 64 fv with
+    | some fv => match generateFuel env.tc env.dict env.classes 64 (instantiateFuel env.classes 64 fv) with
       | .ok l => showAvps l
       | .error e => exc e
     | none => "BAD"
